@@ -941,6 +941,56 @@ def oracle_flux(rep, rng, n):
 
 # ------------------------------------------------------------------------------------------
 
+def provider_xgamma(rep, rng, n):
+    """XGAMMA(t) (the gamma* p -> gamma p cross section that enters the flux identity) can depend on the CFF model only through the
+    values ReH(pt) … ImEt(pt) it reports: for a theory whose CFFs come from a real model block (hybrid free / fixed pole, the
+    hybrid base block, dispersive, Mellin-Barnes) it must equal XGAMMA(t) of the constant-CFF theory fed with exactly those values.
+    (Seeded change C08-10: the hybrid test of _XGAMMA_DVCS_t_Ex looked at the direct bases only, so the shipped hybrid models
+    fell through to the sea-only `cff()` array.)"""
+    import gepard as g
+    import gepard.fits  # noqa: F401
+    providers = [('hybrid-free-pole/KM15', (g.eff.KellyEFF, g.gpd.PWNormGPD, g.cff.HybridFreePoleCFF), dict(g.fits.par_KM15)),
+                 ('hybrid-fixed-pole/KM15', (g.eff.KellyEFF, g.gpd.PWNormGPD, g.cff.HybridFixedPoleCFF), dict(g.fits.par_KM15)),
+                 ('hybrid-base/KM10', (g.eff.DipoleEFF, g.gpd.PWNormGPD, g.cff.HybridCFF), dict(g.fits.par_KM10)),
+                 ('hybrid-free-pole/KM10b', (g.eff.KellyEFF, g.gpd.PWNormGPD, g.cff.HybridFreePoleCFF), dict(g.fits.par_KM10b)),
+                 ('dispersive/KM09a', (g.eff.DipoleEFF, g.cff.DispersionFixedPoleCFF), dict(g.fits.par_KM09a)),
+                 ('mellin-barnes/AFKM12', (g.eff.KellyEFF, g.gpd.PWNormGPD, g.cff.MellinBarnesCFF), dict(g.fits.par_AFKM12))]
+    names = ['ReH', 'ImH', 'ReE', 'ImE', 'ReHt', 'ImHt', 'ReEt', 'ImEt']
+    worst = 0.0
+    for i in range(n):
+        label, bases, par = providers[i % len(providers)]
+        fs = B.FORMULA_SETS[(i // len(providers)) % 5]
+        xB = 10 ** rng.uniform(-3.3, -0.35)
+        Q2 = 10 ** rng.uniform(0.3, 1.8)
+        t = -rng.uniform(0.02, 0.8)
+        kw = dict(xB=xB, Q2=Q2, t=t, process='gammastarp2gammap')
+        info = dict(provider=label, set=fs, kinematics=kw, parameters=par)
+        try:
+            th = type('PX_' + fs, bases + (getattr(g, fs),), {})()
+            th.parameters.update(par)
+            code = float(th.XGAMMA(g.DataPoint(**kw)))
+            pt = g.DataPoint(**kw)
+            m = {nm: float(getattr(th, nm)(pt)) for nm in names}
+            m['F1'] = m['F2'] = 0.0              # the photoproduction cross section has no Bethe-Heitler part
+            want = float(B.theory(fs, m).XGAMMA(g.DataPoint(**kw)))
+        except Exception as e:
+            if not B.in_real_code(e):
+                raise
+            rep.violation('provider-xgamma/exception/' + exc_name(e), 'XGAMMA(t) of %s with %s raised %r' % (fs, label, e), info)
+            continue
+        rep.case('provider-xgamma', (label, fs, i), sample=dict(info, reported=m, code=code, expected=want) if i < 2 else None)
+        rep.hist('provider-xgamma.model', label)
+        d = abs(code - want) / max(abs(want), 1e-300)
+        worst = max(worst, d)
+        if d > 1e-9:
+            rep.violation('provider-xgamma/' + label.split('/')[0],
+                          'XGAMMA(t) of %s with the CFFs of the model block %s is %r, but the same theory fed with the values that model '
+                          'reports (%s) gives %r (relative difference %.3g) at xB=%.5g Q2=%.5g t=%.5g: the photoproduction cross section does '
+                          'not see the CFF values the model reports' % (fs, label, code, {k: round(v, 6) for k, v in m.items()}, want, d, xB, Q2, t),
+                          dict(info, reported=m, code=code, expected=want))
+    rep.coverage['provider_xgamma_worst_relative_difference'] = worst
+
+
 def sequence_stream(rep, rng, quick):
     """integrated observables set and remove a temporary harmonic index / momentum transfer on the caller's point:
     a harmonic observable evaluated on the SAME point afterwards must still be the Fourier coefficient it was before
@@ -1006,6 +1056,7 @@ def run(rep):
     oracle_B(rep, rng, (80 if quick else 1500) * (2 if disagree else 1))
     oracle_xgamma(rep, rng, quick)
     oracle_flux(rep, rng, 25 if quick else 1000)
+    provider_xgamma(rep, rng, 30 if quick else 600)
     sequence_stream(rep, rng, quick)
 
     for kind, key, code, model, info in C.broken[:5]:
